@@ -33,6 +33,7 @@ type replayCtx struct {
 	fr     *FuncResult
 	pinned map[string]string // term string -> value
 	want   map[string]*Term
+	seen   map[string]*Term // every term ever asked for (kept declared in later rounds)
 	decls  []string
 	objs   map[string]string // ref value -> variable name
 	fail   string
@@ -58,6 +59,10 @@ func (rc *replayCtx) value(t *Term) (string, bool) {
 		return v, true
 	}
 	rc.want[k] = t
+	if rc.seen == nil {
+		rc.seen = map[string]*Term{}
+	}
+	rc.seen[k] = t
 	return "", false
 }
 
@@ -81,9 +86,16 @@ func (rc *replayCtx) fetch(dir string, round int, bound bool) bool {
 	if len(rc.want) == 0 {
 		return true
 	}
-	qo := rc.o
+	qo := &Obligation{Name: rc.o.Name, Goal: rc.o.Goal, Hyps: append([]*Term{}, rc.o.Hyps...)}
 	if rc.o.Projected {
-		qo = &Obligation{Name: rc.o.Name, Goal: rc.o.Goal, Hyps: rc.o.ProjHyps}
+		qo.Hyps = append([]*Term{}, rc.o.ProjHyps...)
+	}
+	// every symbol of a wanted term must be declared in the query even when no (remaining) hypothesis
+	// mentions it: mention the term under an uninterpreted predicate
+	for _, t := range rc.seen {
+		if t.Sort != nil {
+			qo.Hyps = append(qo.Hyps, mkApp("govc!want!"+sanitize(t.Sort.String()), SBool, t))
+		}
 	}
 	q := rc.prog.buildQuery(qo, false)
 	q = strings.Replace(q, "(set-logic ALL)", "(set-option :produce-models true)\n(set-logic ALL)", 1)
@@ -102,19 +114,41 @@ func (rc *replayCtx) fetch(dir string, round int, bound bool) bool {
 			b.WriteString("(assert " + r.String() + ")\n")
 		}
 	}
-	b.WriteString("(check-sat)\n")
+	// prefer small inputs: lengths and capacities of the wanted slices / strings at most 4096 when that is
+	// satisfiable (a model with a 100000-element buffer means 100000 pinned cells in the next round)
+	var small strings.Builder
 	for _, k := range keys {
-		b.WriteString("(get-value (" + k + "))\n")
+		if strings.Contains(k, "$len") || strings.Contains(k, "$cap") || strings.HasPrefix(k, "(slen ") {
+			small.WriteString("(assert (<= " + k + " 4096))\n")
+		}
+	}
+	var tail strings.Builder
+	tail.WriteString("(check-sat)\n")
+	for _, k := range keys {
+		tail.WriteString("(get-value (" + k + "))\n")
 	}
 	file := filepath.Join(dir, fmt.Sprintf("replay-%d.smt2", round))
-	os.WriteFile(file, []byte(b.String()), 0o644)
-	ctx, cancel := context.WithTimeout(context.Background(), 20*time.Second)
-	defer cancel()
-	cmd := exec.CommandContext(ctx, "z3-new", "-T:15", file)
 	var out bytes.Buffer
-	cmd.Stdout = &out
-	cmd.Stderr = &out
-	cmd.Run()
+	for attempt := 0; attempt < 2; attempt++ {
+		body := b.String()
+		if attempt == 0 {
+			if small.Len() == 0 {
+				continue
+			}
+			body += small.String()
+		}
+		os.WriteFile(file, []byte(body+tail.String()), 0o644)
+		ctx, cancel := context.WithTimeout(context.Background(), 45*time.Second)
+		cmd := exec.CommandContext(ctx, "z3-new", "-T:40", file)
+		out.Reset()
+		cmd.Stdout = &out
+		cmd.Stderr = &out
+		cmd.Run()
+		cancel()
+		if strings.HasPrefix(strings.TrimSpace(out.String()), "sat") {
+			break
+		}
+	}
 	lines := strings.Split(strings.TrimSpace(out.String()), "\n")
 	if len(lines) == 0 || strings.TrimSpace(lines[0]) != "sat" {
 		rc.fail = "solver did not reproduce a model when fetching values: " + firstLines(out.String(), 2)
@@ -132,7 +166,7 @@ func (rc *replayCtx) fetch(dir string, round int, bound bool) bool {
 		// ((term value)): take the last atom / (- n)
 		val := lastValue(a)
 		if val == "" {
-			rc.fail = "cannot parse model value: " + a
+			rc.fail = "cannot parse model value: " + a + " in " + file
 			return false
 		}
 		rc.pinned[keys[i]] = val
@@ -404,6 +438,16 @@ func (rc *replayCtx) ifaceExpr(ref *Term, refVal int64, t types.Type) (string, b
 	key := fmt.Sprintf("iface@%d", refVal)
 	if name, ok := rc.objs[key]; ok {
 		return name, true
+	}
+	// only interfaces a file can stand in for (they need nothing beyond Read/ReadAt/Seek/Close/...): others stay nil
+	if it, ok := t.Underlying().(*types.Interface); ok {
+		fileMethods := map[string]bool{"Read": true, "ReadAt": true, "Seek": true, "Close": true, "Write": true, "WriteAt": true, "Name": true,
+			"Readdir": true, "Readdirnames": true, "Stat": true, "Sync": true, "Truncate": true, "WriteString": true}
+		for i := 0; i < it.NumMethods(); i++ {
+			if !fileMethods[it.Method(i).Name()] {
+				return fmt.Sprintf("*new(%s)", rc.typeStr(t)), true
+			}
+		}
 	}
 	specs := rc.prog.specs
 	if _, ok := specs.Ghosts["fsize"]; !ok {
